@@ -111,6 +111,19 @@ def one(cat, rng, stack, skew):
             b.s.noshrink = True
             prev_heap = None
             continue
+        if r == 1:
+            # heap_size of a region fresh from merge_regions / merge_capacity (structure sized from the source, nothing
+            # stored yet): its used bytes are compared with the model's, e.g. the struct bytes of the merged columns
+            b.merge("m", ["a"])
+
+            def merged_ok(got, replies):
+                p = parse_pairs(got)
+                if p is None:
+                    return "pairs"
+                return next(("used %d > capacity %d" % (u, c) for u, c in p if u > c), None)
+            b.raw("heap m", ("pred", merged_ok, "used <= capacity after merge_regions"), cmp="heap",
+                  sig="heap-after-merge@" + b.entry, shape="heap")
+            continue
         v = skewed(b, rng, skew, last)
         last = v
         b.push("a", v, b.form_for(v))
